@@ -103,6 +103,46 @@ impl Interp {
                     Err(_) => "err".into(),
                 }
             }
+            ["vm.client", name, ..] => {
+                let (Some(u), Some(c), Some(cmd), Some(a)) = (kv(t, "uuid"), kv(t, "cipher"), kv(t, "cmd"), kv(t, "addr").and_then(parse_addr)) else { return "err".into() };
+                match crate::stream::vm::client(u, c, cmd == "udp", &a) {
+                    Ok(o) => {
+                        self.objs.insert(name.to_string(), Obj::Stream(o));
+                        "ok".into()
+                    }
+                    Err(_) => "err".into(),
+                }
+            }
+            ["vm.server", name, ..] => {
+                let Some(u) = kv(t, "users") else { return "bad-op".into() };
+                match crate::stream::vm::server(&crate::stream::parse_users(u)) {
+                    Ok(o) => {
+                        self.objs.insert(name.to_string(), Obj::Stream(o));
+                        "ok".into()
+                    }
+                    Err(_) => "err".into(),
+                }
+            }
+            ["tj.client", name, ..] => {
+                let (Some(p), Some(cmd), Some(a)) = (kv(t, "password"), kv(t, "cmd"), kv(t, "addr").and_then(parse_addr)) else { return "bad-op".into() };
+                match crate::stream::tj::client(p, cmd == "udp", &a) {
+                    Ok(o) => {
+                        self.objs.insert(name.to_string(), Obj::Stream(o));
+                        "ok".into()
+                    }
+                    Err(_) => "err".into(),
+                }
+            }
+            ["tj.server", name, ..] => {
+                let Some(p) = kv(t, "password") else { return "bad-op".into() };
+                match crate::stream::tj::server(p) {
+                    Ok(o) => {
+                        self.objs.insert(name.to_string(), Obj::Stream(o));
+                        "ok".into()
+                    }
+                    Err(_) => "err".into(),
+                }
+            }
             ["ss.cctx", name, ..] => {
                 let (Some(c), Some(p)) = (kv(t, "cipher"), kv(t, "password")) else { return "bad-op".into() };
                 match crate::stream::ss::client_ctx(c, p) {
